@@ -6,7 +6,6 @@ mod chunks;
 mod ints;
 #[cfg(feature = "std")]
 mod edges;
-#[cfg(feature = "std")]
 mod exec;
 mod pure;
 mod pure2;
@@ -16,7 +15,6 @@ mod natural;
 mod serde_probe;
 #[cfg(feature = "with_serde")]
 mod tree_de;
-#[cfg(feature = "std")]
 mod sut;
 
 #[global_allocator]
@@ -29,7 +27,7 @@ fn main() {
         std::process::exit(2);
     }
     match args[1].as_str() {
-        #[cfg(feature = "std")]
+        // (without helgoboss-midi's `std` feature: the two scanners that exist there)
         "exec" => exec::run(&args[2], &args[3]),
         #[cfg(feature = "std")]
         "edges" => edges::run(&args[2..]),
